@@ -87,6 +87,7 @@ pub fn run(ctx: &Ctx) -> i32 {
         cfg.max_w = 64;
         cfg.max_h = 64;
         cfg.max_cel = 6;
+        cfg.big = true;
         cfg.max_layers = if i % 50 == 0 { 40 } else { 10 };
         cfg.max_frames = if i % 50 == 1 { 12 } else { 5 };
         // full-range canvas sizes are cheap when nothing is rendered
